@@ -2,3 +2,6 @@
 use serde::{Deserialize, Serialize};
 #[derive(Clone, Debug, PartialEq, Serialize, Deserialize)]
 pub struct History {}
+pub fn candidates(_h: &History) -> Vec<History> {
+    vec![]
+}
